@@ -204,6 +204,9 @@ struct Gen<'a> {
     stopped: bool,
     n_acct: usize,
     violate_pct: u64,
+    /// ids that existed and were consumed (for deliberate re-use)
+    dead_buckets: Vec<u32>,
+    dead_proofs: Vec<u32>,
 }
 
 impl<'a> Gen<'a> {
@@ -212,9 +215,12 @@ impl<'a> Gen<'a> {
             self.out.push(i);
             return;
         }
+        let (b0, p0): (Vec<u32>, Vec<u32>) = (self.m.buckets.keys().cloned().collect(), self.m.proofs.keys().cloned().collect());
         if self.m.step(&i).is_err() {
             self.stopped = true;
         }
+        self.dead_buckets.extend(b0.into_iter().filter(|b| !self.m.buckets.contains_key(b)));
+        self.dead_proofs.extend(p0.into_iter().filter(|p| !self.m.proofs.contains_key(p)));
         self.out.push(i);
     }
 
@@ -238,6 +244,9 @@ impl<'a> Gen<'a> {
     fn some_bucket(&mut self) -> Option<u32> {
         if self.rng.below(100) < self.p.bad_id_pct {
             // stale or never-created id
+            if !self.dead_buckets.is_empty() && self.rng.bool() {
+                return Some(*self.rng.pick(&self.dead_buckets));
+            }
             return Some(match self.rng.below(3) {
                 0 => self.m.next_bucket + self.rng.below(3) as u32,
                 1 => self.rng.below(self.m.next_bucket.max(1) as u64) as u32,
@@ -254,6 +263,9 @@ impl<'a> Gen<'a> {
 
     fn some_proof(&mut self) -> Option<u32> {
         if self.rng.below(100) < self.p.bad_id_pct {
+            if !self.dead_proofs.is_empty() && self.rng.bool() {
+                return Some(*self.rng.pick(&self.dead_proofs));
+            }
             return Some(match self.rng.below(2) {
                 0 => self.m.next_proof + self.rng.below(3) as u32,
                 _ => self.rng.below(self.m.next_proof.max(1) as u64) as u32,
@@ -345,7 +357,7 @@ impl<'a> Gen<'a> {
                 cons.push((other, { let v = self.violate(); cons_for(self.rng, &oi, None, v) }));
             }
             let only = self.rng.bool();
-            if self.rng.chance(1, 8) {
+            if self.rng.chance(1, 8) && (!only || self.violate()) {
                 cons.clear();
             }
             self.push(if only { Ins::AssertNextCallOnly { cons } } else { Ins::AssertNextCallInclude { cons } });
@@ -447,11 +459,15 @@ impl<'a> Gen<'a> {
                 };
                 Ins::AssertContains { res: r, amount: to_dec(&a) }
             }
-            2 => Ins::AssertContainsAny { res: r },
-            3 | 4 => {
-                if info.fungible {
-                    Ins::AssertContainsAny { res: r }
+            2 | 3 | 4 if info.fungible || choice == 2 => {
+                if amount.is_zero() && !self.violate() {
+                    Ins::AssertContains { res: r, amount: Decimal::ZERO }
                 } else {
+                    Ins::AssertContainsAny { res: r }
+                }
+            }
+            3 | 4 => {
+                {
                     let ids: BTreeSet<u64> = match &h {
                         Some(Holding::N(s)) => s.clone(),
                         _ => BTreeSet::new(),
@@ -466,17 +482,19 @@ impl<'a> Gen<'a> {
             5 | 6 | 7 => {
                 // worktop-wide assertion
                 let only = self.rng.bool();
+                let viol = self.violate();
                 let mut cons = vec![];
                 for rr in 0..self.m.res.len() {
                     let present = self.m.worktop.contains_key(&rr);
-                    let include = if present { self.rng.chance(5, 6) } else { self.rng.chance(1, 6) };
+                    let include = if present { (only && !viol) || self.rng.chance(5, 6) } else { self.rng.chance(1, 6) };
                     if include {
                         let ii = self.m.res[rr].clone();
                         let hh = self.m.worktop_holding(rr).cloned();
-                        cons.push((rr, { let v = self.violate(); cons_for(self.rng, &ii, hh.as_ref(), v) }));
+                        let v = viol && self.rng.bool();
+                        cons.push((rr, cons_for(self.rng, &ii, hh.as_ref(), v)));
                     }
                 }
-                if self.rng.chance(1, 10) {
+                if (viol || self.m.worktop.is_empty() || !only) && self.rng.chance(1, 6) {
                     cons.clear(); // ASSERT_WORKTOP_IS_EMPTY when `only`
                 }
                 if only {
@@ -892,7 +910,7 @@ pub fn generate(rng: &mut Rng, p: &Profile, res: &[ResInfo], holdings: &BTreeMap
         }
         _ => violate_pct = 30,
     }
-    let mut g = Gen { rng, p: p.clone(), m, v2, out: vec![], stopped: false, n_acct, violate_pct };
+    let mut g = Gen { rng, p: p.clone(), m, v2, out: vec![], stopped: false, n_acct, violate_pct, dead_buckets: vec![], dead_proofs: vec![] };
     let fee = if g.rng.bool() { FeeSource::Faucet } else { FeeSource::FeeAccount };
     g.push(Ins::LockFee(fee));
     let len = g.rng.range(2, p.max_len as u64) as usize;
